@@ -53,9 +53,15 @@ def generate(rng, tier):
             if not qx:
                 continue
             ql = rng.choice(["c", "rev", "s2", "rev"])
+            oob = len(qx) >= 3 and rng.random() < 0.35
+            if oob:
+                # failing call: an early element rejected on y, a later one on x (x is tested before y *per element*)
+                qx, qy = list(qx), list(qy)
+                qy[0] = ys[-1] + (ys[-1] - ys[0])
+                qx[2] = xs[0] - (xs[-1] - xs[0]) * 2
             for qtag in ("sta", "dyn"):
                 cases.append({"line": i2_line(S, xs, ys, shape, flat, False, e_array(S, [len(qx)], qx, qy, qtag=qtag, lay=ql),
-                                              dtag=rng.choice(["sta", "dyn"])), "meta": {}})
+                                              dtag=rng.choice(["sta", "dyn"])), "meta": {"oob": oob}})
     return cases
 
 
